@@ -26,6 +26,7 @@ enum E {
     Access(Box<E>, String),
     Index(Box<E>, Box<E>),
     CallF(Box<E>, Vec<E>),
+    Let(String, Box<E>, Box<E>),
 }
 
 fn bin_value(canon: &str, a: Value, b: Value) -> Value {
@@ -85,6 +86,10 @@ fn to_value(e: &E) -> Value {
             v.extend(args.iter().map(to_value));
             Call::new(v).into()
         }
+        E::Let(name, val, body) => {
+            let binding = Value::Tuple(Arc::new(vec![Value::Identifier(name.clone()), to_value(val)]));
+            Scope::make_call(Value::Array(Arc::new(vec![binding])), to_value(body)).into()
+        }
     }
 }
 
@@ -108,6 +113,7 @@ fn full_text(e: &E, spell: &dyn Fn(&str) -> String) -> String {
             full_text(f, spell),
             args.iter().map(|a| full_text(a, spell)).collect::<Vec<_>>().join(", ")
         ),
+        E::Let(name, val, body) => format!("(let {} = {} in {})", name, full_text(val, spell), full_text(body, spell)),
     }
 }
 
@@ -427,6 +433,42 @@ fn check() {
     let t = E::Tern(a(), b(), Box::new(E::Tern(c(), d(), e())));
     cases += 1;
     check_text(&chk, &st, "if a then b else if c then d else e", &to_value(&t), "parser.precedence", "if:else-if", "if chain");
+
+    // ---- 3b. the constructs of precedence 0 (let, if-then-else, ?:) inside each other without parentheses: each of them
+    //      extends as far to the right as it can, and ends where a delimiter of the enclosing construct begins
+    {
+        let id = |s: &str| Box::new(E::Id(s.to_string()));
+        // inner constructs: (name, text, tree)
+        let inners: Vec<(&str, String, E)> = vec![
+            ("let", "let p = q in p + r".into(), E::Let("p".into(), id("q"), Box::new(E::Bin("+".into(), id("p"), id("r"))))),
+            ("if", "if q then r else s".into(), E::Tern(id("q"), id("r"), id("s"))),
+            ("ternary", "q ? r : s".into(), E::Tern(id("q"), id("r"), id("s"))),
+            ("binary", "q + r".into(), E::Bin("+".into(), id("q"), id("r"))),
+            ("let-let", "let p = q in let t = p in t".into(), E::Let("p".into(), id("q"), Box::new(E::Let("t".into(), id("p"), id("t"))))),
+        ];
+        for (iname, itext, itree) in &inners {
+            let it = || Box::new(itree.clone());
+            let mut holes: Vec<(&str, String, E)> = vec![
+                ("let-body", format!("let x = a in {itext}"), E::Let("x".into(), id("a"), it())),
+                ("let-value", format!("let x = {itext} in x"), E::Let("x".into(), it(), id("x"))),
+                ("if-cond", format!("if {itext} then b else c"), E::Tern(it(), id("b"), id("c"))),
+                ("if-then", format!("if a then {itext} else c"), E::Tern(id("a"), it(), id("c"))),
+                ("if-else", format!("if a then b else {itext}"), E::Tern(id("a"), id("b"), it())),
+                ("ternary-else", format!("a ? b : {itext}"), E::Tern(id("a"), id("b"), it())),
+                ("let-body-of-let-body", format!("let x = a in let y = x in {itext}"), E::Let("x".into(), id("a"), Box::new(E::Let("y".into(), id("x"), it())))),
+                ("array-member", format!("[ {itext} , z ]"), E::Id("unused".into())),
+            ];
+            holes.retain(|h| h.0 != "array-member");
+            if *iname != "ternary" {
+                // (a ternary in the condition of a ternary would need a rule for `a ? b : c ? d : e`, covered above)
+                holes.push(("ternary-then", format!("a ? {itext} : c"), E::Tern(id("a"), it(), id("c"))));
+            }
+            for (hname, text, tree) in holes {
+                cases += 1;
+                check_text(&chk, &st, &text, &to_value(&tree), "parser.precedence", &format!("nesting:{iname}-in-{hname}"), "precedence-0 construct inside another");
+            }
+        }
+    }
 
     // ---- 4. whitespace / comments at every token boundary never change the tree
     let fillers: Vec<(&str, &str)> = vec![
